@@ -81,6 +81,41 @@ def uniform_int(c0: int, c1: int, s0: int, s1: int) -> bool:
     return verdict(ok, nontrivial=True, sample=lambda: {"uops": [[c0, list(a)], [c1, list(b)]]})
 
 
+PORTS_MIX = ["0", "1", "2", "12", "01"]      # multi-digit names that concatenations of single-digit ports spell
+
+
+def uniform_substring(c0: int, c1: int, s0: int, s1: int) -> bool:
+    """
+    pre: 0 <= c0 <= 64 and 0 <= c1 <= 64 and 0 <= s0 < 7 and 0 <= s1 < 9
+    post: _
+    """
+    # single-digit port groups written as strings ('012') next to ports named '12' and '01'
+    # (as in zen3 / zen4 / v2 / m1): a group must only load the ports it lists
+    if skip(locals()):
+        return True
+    a = SUB3[pick(s0, 7)]
+    k = pick(s1, 9)
+    model = mk_model("x86", ports=list(PORTS_MIX))
+    us = [[c0, "".join(PORTS_MIX[i] for i in a)]]
+    idx = [set(a)]
+    if k < 7:
+        b = SUB3[k]
+        us.append([c1, "".join(PORTS_MIX[i] for i in b)])
+        idx.append(set(b))
+    else:
+        us.append([c1, [PORTS_MIX[3]] if k == 7 else [PORTS_MIX[3], PORTS_MIX[4]]])
+        idx.append({3} if k == 7 else {3, 4})
+    p = model.average_port_pressure(us)
+    ok = len(p) == 5 and sum(p) == c0 + c1
+    for q in range(5):
+        want = 0
+        for (c, _), ix in zip(us, idx):
+            if q in ix:
+                want = want + c / len(ix)
+        ok = ok and p[q] == want
+    return verdict(ok, nontrivial=True, sample=lambda: {"uops": us})
+
+
 def uniform_assign(c0: float, s0: int, tp_present: bool, tp: float, lat: float) -> bool:
     """
     pre: 0 <= c0 <= 64 and 0 <= s0 < 7 and 0 <= tp <= 64 and 0 <= lat <= 64
@@ -362,6 +397,7 @@ def shipped(ex: int, mode: int) -> bool:
 
 CELLS = {
     "uniform2": {"fn": uniform2, "bound": "3 ports (one multi-character name in list form), 2 micro-ops, every port-set pair, all real-valued cycles in [0,64]; Hall condition exact", "budget": {"quick": 170, "thorough": 600}},
+    "uniform_substring": {"fn": uniform_substring, "bound": "ports 0,1,2 plus ports named '12' and '01': string groups over single-digit ports next to list groups over the multi-digit ones, int cycles 0..64", "budget": {"quick": 150, "thorough": 300}},
     "uniform3": {"fn": uniform3, "tiers": ("thorough",), "bound": "3 micro-ops, every port-set triple, all real-valued cycles in [0,64]", "budget": {"thorough": 1200}, "shards": 7},
     "uniform_int": {"fn": uniform_int, "tiers": ("thorough",), "bound": "2 micro-ops, int cycles 0..64 (mixed int/real queries are slow)", "budget": {"thorough": 1500}},
     "uniform_assign": {"fn": uniform_assign, "bound": "assign_tp_lt on a one-entry synthetic model: all cycles/throughput/latency ints, throughput present/absent, flags", "budget": {"quick": 150, "thorough": 600}},
